@@ -680,6 +680,7 @@ namespace
                     O["var"] = VD->getNameAsString();
                     O["vd"] = std::to_string(lineOf(VD->getLocation())) + ":" + std::to_string(colOf(VD->getLocation()));
                     O["type"] = typeStr(VD->getType());
+                    O["ctype"] = typeStr(VD->getType().getCanonicalType());
                     if (VD->isStaticLocal())
                         O["static"] = true;
                     if (const Expr* I = VD->getInit())
